@@ -327,7 +327,7 @@ func c02forestRun(x *mc.X, links map[string]string, calls []c02call, comps []str
 		defer unix.Close(fd)
 	}
 	type enc struct{ name, val string }
-	encs := []enc{{"atfdcwd", "-100"}, {"zext-atfdcwd", "0x00000000ffffff9c"}, {"dirfd", "3"}, {"dirfd-upper-garbage", "0xdeadbeef00000003"}, {"closed-fd", "99"}}
+	encs := []enc{{"atfdcwd", "-100"}, {"zext-atfdcwd", "0x00000000ffffff9c"}, {"dirfd", "3"}, {"dirfd-upper-garbage", "0xdeadbeef00000003"}, {"closed-fd", "99"}, {"minus-one", "-1"}}
 	rels := c02paths(comps, maxComps)
 	var names []string
 	for _, r := range rels {
@@ -363,11 +363,12 @@ func c02forestRun(x *mc.X, links map[string]string, calls []c02call, comps []str
 					if cwd == "a" && filepath.IsAbs(name) && !strings.HasPrefix(name, "/proc/") {
 						continue // the working directory cannot matter for an absolute name
 					}
-					if tier != "thorough" && e.name == "closed-fd" {
-						continue
+
+					if filepath.IsAbs(name) && (e.name == "dirfd" || e.name == "zext-atfdcwd" || e.name == "dirfd-upper-garbage") {
+						continue // the kernel ignores dirfd for absolute names: AT_FDCWD, a closed descriptor and -1 are tried
 					}
-					if filepath.IsAbs(name) && (e.name == "dirfd" || e.name == "closed-fd") {
-						continue // the kernel ignores dirfd for absolute names: two encodings suffice
+					if !filepath.IsAbs(name) && (e.name == "closed-fd" || e.name == "minus-one") && tier != "thorough" {
+						continue // relative to a dead descriptor the kernel resolves nothing (not judged)
 					}
 					ps := []string{name}
 					if len(c.args) == 2 {
@@ -447,7 +448,7 @@ func c02forestRun(x *mc.X, links map[string]string, calls []c02call, comps []str
 			if useDirfd {
 				b = dfdA
 			}
-			if a.dirfdArg >= 0 && it.dirfd == "closed-fd" && !filepath.IsAbs(name) && ai == 0 {
+			if a.dirfdArg >= 0 && (it.dirfd == "closed-fd" || it.dirfd == "minus-one") && !filepath.IsAbs(name) && ai == 0 {
 				skipped++
 				continue
 			}
@@ -552,6 +553,9 @@ func c02kind(it c02item, name string, ai int, links map[string]string) string {
 	}
 	if strings.HasPrefix(name, "/proc/") {
 		return "proc-alias"
+	}
+	if a.dirfdArg >= 0 && filepath.IsAbs(name) && (it.dirfd == "closed-fd" || it.dirfd == "minus-one") {
+		return "absolute-name-with-dead-dirfd"
 	}
 	if a.dirfdArg >= 0 && !filepath.IsAbs(name) {
 		switch it.dirfd {
